@@ -435,7 +435,7 @@ def m_str_bytes(ex, n, a, f):
         if isinstance(c, int):
             out.extend(chr(c).encode('utf-8'))
         elif isinstance(c, Frag):
-            raise Unsupported("bytes of opaque fragment")
+            out.append(c)     # an opaque text fragment stays one opaque item of the byte sequence
         else:
             out.append(z3.Extract(7, 0, c))
     cells = [Cell(b) for b in out]
